@@ -316,16 +316,16 @@ func init() {
 
 	// ---- C05: termination, nothing left behind, Error() never blocks -------------------------------------------
 	register(&Property{ID: "C05",
-		Rule:  "real Stream() against the simulated master: every stop cause {cancel, EOF, ERR, close, RST, short packet, out-of-sequence packet, handler error, mapper error/mismatch, unsupported / invalid event, connection refused / handshake error / checksum-query error} x stop point (every packet index sampled) x reader state at the stop (waiting for the network: master silent; holding an event: handler slow or blocked with the master ahead) x handler {fast, slow, blocked-at-stop}. Observed: Stream returns within the deadline, then within the deadline the master sees the socket closed, no library-started goroutine remains (runtime.Stack), Error() and a second Error() return, the handler is never entered twice at once nor after Stream returned. Non-trivial: every scenario",
+		Rule:  "real Stream() against the simulated master: every stop cause {cancel, EOF, ERR, close, RST, short packet, out-of-sequence packet, handler error, mapper error/mismatch, unsupported / invalid event, connection refused / handshake error / checksum-query error / reset after the checksum query / dump request that cannot be written (max_allowed_packet)} x stop point (every packet index sampled) x reader state at the stop (waiting for the network: master silent; holding an event: handler slow or blocked with the master ahead) x handler {fast, slow, blocked-at-stop}; long backlogs (100-180 packets pending when the parser stops). Observed: Stream returns within the deadline, then within the deadline the master sees the socket closed, no library-started goroutine remains (runtime.Stack), Error() and a second Error() return, the handler is never entered twice at once nor after Stream returned. Non-trivial: every scenario",
 		Extra: extraC05})
 	register(&Property{ID: "C06",
-		Rule:  "real Stream() against the simulated master: stop causes as in C04 x stop points x pacing; ERR codes/messages arbitrary (incl. '#'-prefixed SQL state); observed (Stream result, Error() result): handler/decode/lookup failures give a non-nil Stream error; with a nil Stream result Error() may be nil only for cancel / EOF, must carry the master's message for ERR and a transport error for close / RST / short / out-of-sequence; late cancel after an ERR must not hide it. Non-trivial: every scenario",
+		Rule:  "real Stream() against the simulated master: stop causes as in C04 x stop points x pacing; ERR codes/messages arbitrary (incl. '#'-prefixed SQL state); decode failures at event level (unsupported / truncated-body events, a truncated TABLE_MAP for an id already announced) and at value level (ENUM of an unexpected pack size in the before / after / both images); observed (Stream result, Error() result): handler/decode/lookup failures give a non-nil Stream error; with a nil Stream result Error() may be nil only for cancel / EOF, must carry the master's message for ERR and a transport error for close / RST / short / out-of-sequence; late cancel after an ERR must not hide it. Non-trivial: every scenario",
 		Extra: extraC06})
 	register(&Property{ID: "C07",
-		Rule:  "real Stream() attempts with server ids {1, 2^31-1, 2^31, 2^32-1, random}, file names of 1..255 bytes, offsets {4, 2^32-1, random}, sequences of up to 4 attempts on one streamer; the master decodes the COM_QUERY and COM_BINLOG_DUMP it received. Non-trivial: every scenario",
+		Rule:  "real Stream() attempts with server ids {1, 2^31-1, 2^31, 2^32-1, random}, file names of 0..255 bytes incl. empty, path-like, dotted, blank, NUL, quoted, non-UTF-8 and random-byte names, offsets {4, 2^32-1, 2^31, random}, sequences of up to 4 attempts on one streamer, some refused before the dump, some ending only after the format description was received, the position moved by the caller between attempts; the master decodes the COM_QUERY and COM_BINLOG_DUMP it received. Non-trivial: every scenario",
 		Extra: extraC07})
 	register(&Property{ID: "C08",
-		Rule:  "real Stream() with handlers that (a) keep deep references and re-read every delivered transaction after the stream ended, (b) overwrite every delivered byte slice; histories with string/blob/bit/set values (sub-slices of the event buffer) and zero timestamps; packet sizes around the driver's buffer thresholds (4091..4097, 8187..8193, 262139..262145 byte payloads); master far ahead vs lock-step; plus readBinlogEvent over a scripted connection that reuses one buffer. Non-trivial: every scenario",
+		Rule:  "real Stream() with handlers that (a) keep deep references and re-read every delivered transaction after the stream ended, (b) overwrite every delivered byte slice; histories with string/blob/bit/set values (sub-slices of the event buffer) and, for every formatted type, one value repeated in all rows (its zero or a non-zero one; all TIMESTAMP columns in the same second), the scribbling run first; packet sizes around the driver's buffer thresholds (4091..4097, 8187..8193, 262139..262145 byte payloads); master far ahead vs lock-step; plus readBinlogEvent over a scripted connection that reuses one buffer. Non-trivial: every scenario",
 		Extra: extraC08})
 }
 
